@@ -65,9 +65,14 @@ def gen(rng, tier):
             prefixes.append(src[1:].split("\\.")[0] + ".")
         # "-x" and "" pass the pre-match (static prefix) but not the regex: drop-raw must let them through
         names = [p + w for p in prefixes for w in ("foo", "bar", "a1", "-x", "")] + ["other.x", "s0.aggfoo", "c1.foo", "out0.foo"]
-        for _ in range(rng.randrange(10, 30)):
+        # every third case re-points route filters at run time (Table.UpdateRoute changes a route in place): the aggregate output
+        # of later ticks must follow the filters as they are then, like the raw metrics do
+        live_updates = len(cases) % 3 == 0
+        for _ in range(rng.randrange(10, 30) if not live_updates else rng.randrange(25, 50)):
             r = rng.random()
-            if r < .7:
+            if live_updates and r < .12:
+                c["events"].append({"t": "modroute", "ri": rng.randrange(len(c["routes"])), "m": G.gen_matcher(rng, p_any=.5, p_regex=0)})
+            elif r < .7:
                 ts = now + rng.randrange(-3, 12)
                 c["events"].append({"t": "line", "b": ("%s %s %d" % (rng.choice(names), rng.choice(["1", "2", "0.5", "7"]), ts)).encode().hex()})
             elif r < .85:
@@ -114,6 +119,7 @@ def distribution(cases):
             d["self" if a["outfmt"].startswith("s") else "chain" if a["outfmt"].startswith("c") else "plain"] += 1
         d["ticks"] += sum(1 for e in c["events"] if e["t"] == "tick")
         d["lines"] += sum(1 for e in c["events"] if e["t"] == "line")
+        d["route_filter_updates"] += sum(1 for e in c["events"] if e["t"] == "modroute")
     return dict(d)
 
 
